@@ -206,16 +206,8 @@ pub(crate) fn cache_slot(reliable: bool) -> CacheSlot {
     )),
   }
 }
-pub(crate) static mut HEAP_CACHE: bool = false;
 #[cfg(kani)]
 pub(crate) fn cache_handle(slot: &mut Option<CacheSlot>, reliable: bool) -> Arc<Mutex<TopicCache>> {
-  if unsafe { HEAP_CACHE } {
-    return Arc::new(Mutex::new(TopicCache::new(
-      TOPIC.to_string(),
-      TypeDesc::new("VK".to_string()),
-      &qos_of(reliable),
-    )));
-  }
   *slot = Some(cache_slot(reliable));
   let data: *const Mutex<TopicCache> = &slot.as_ref().unwrap().data;
   unsafe { Arc::from_raw(data) }
@@ -635,6 +627,9 @@ fn has_good<const N: usize>(chs: &[Ch; N]) -> bool {
 }
 
 // ------------------------------------------------------------------ eager try_take_undecoded
+// STATUS: experiment.  Neither this stand-in (boxed or UNBOXED variant, with or without LAUNDER),
+// nor a heap / typed-local cache, nor SHIM_CAP 2, nor field-sensitivity sizes 64..16384 made ONE
+// call of try_take_one_with finish in 300-600 s.  Only c09_rel_hash_value_eager (thorough) uses it.
 // kani::stub target for the private associated fn SimpleDataReader::try_take_undecoded (loop
 // harnesses only).  It calls the SAME real TopicCache::get_changes_in_range_reliable /
 // _best_effort, takes `.next()` at once and hands the element back through a one-shot
@@ -648,6 +643,7 @@ pub(crate) static mut ONESHOT: Option<(Timestamp, *const CacheChange)> = None;
 #[cfg(kani)]
 pub(crate) static mut ONESHOT_CALLS: usize = 0;
 pub(crate) static mut LAUNDER: bool = false;
+pub(crate) static mut UNBOXED: bool = true;
 #[cfg(kani)]
 pub(crate) struct OneShot<'a>(PhantomData<&'a CacheChange>);
 #[cfg(kani)]
@@ -672,13 +668,22 @@ pub(crate) fn stub_try_take_undecoded<'a, D: Keyed + 'static, A: DeserializerAda
   latest_instant: Timestamp,
   last_read_sn: &'a BTreeMap<GUID, SequenceNumber>,
 ) -> Box<dyn Iterator<Item = (Timestamp, &'a CacheChange)> + 'a> {
-  let mut it = if is_reliable {
-    topic_cache.get_changes_in_range_reliable(last_read_sn)
+  let first = if unsafe { UNBOXED } {
+    if is_reliable {
+      topic_cache.verif_first_reliable(last_read_sn)
+    } else {
+      topic_cache.verif_first_best_effort(latest_instant, Timestamp::now())
+    }
   } else {
-    topic_cache.get_changes_in_range_best_effort(latest_instant, Timestamp::now())
+    let mut it = if is_reliable {
+      topic_cache.get_changes_in_range_reliable(last_read_sn)
+    } else {
+      topic_cache.get_changes_in_range_best_effort(latest_instant, Timestamp::now())
+    };
+    let f = it.next();
+    core::mem::forget(it);
+    f
   };
-  let first = it.next();
-  core::mem::forget(it);
   let mut out: Option<(Timestamp, *const CacheChange)> = match first {
     Some((t, cc)) => Some((t, cc as *const CacheChange)),
     None => None,
@@ -766,7 +771,7 @@ use Kind::{AnyRep, DisposeHash, DisposeKey, DisposeNoKey, Short, UnknownRep, Val
 // (kind sequences concrete per instance; every byte inside the changes symbolic)
 macro_rules! scen {
   ($name:ident, $rel:expr, [$($c:expr),+]) => {
-    loop_harness! {
+    sdr_harness! {
       fn $name(17) {
         scenario($rel, [$($c),+]);
       }
@@ -937,26 +942,9 @@ deser!(c09_deser_disposekey, DisposeKey);
 deser!(c09_deser_disposenokey, DisposeNoKey);
 deser!(c09_deser_disposehash, DisposeHash);
 
-// ---- probes (temporary)
-fn probe_one_take(kind: Kind, launder: bool) {
-  unsafe { LAUNDER = launder; }
-  let mut slot: Option<CacheSlot> = None;
-  let rig = make_srig::<VK, DA>(true, cache_handle(&mut slot, true));
-  {
-    let mut tc = rig.cache.lock().unwrap();
-    let (data, m) = make_change(0, kind);
-    tc.add_change(&ts_of(0), CacheChange::new(writer_guid(1), SequenceNumber::new(1), WriteOptions::from(None), data));
-    tc.mark_reliably_received_before(writer_guid(1), SequenceNumber::new(2));
+// the same scenario through the eager stand-in for try_take_undecoded (see above): experiment
+loop_harness! {
+  fn c09_rel_hash_value_eager(17) {
+    scenario(true, [ch(1, 1, DisposeHash), ch(1, 2, Value)]);
   }
-  unsafe { CLONES = 0; CLONE_LIMIT = 1; }
-  let r = rig.reader.try_take_one_with(CountingDecoder::new());
-  let got = classify(r);
-  assert!(got == Got::Error);
-  vk_cover!(true, "taken");
-  rig.finish();
-  core::mem::forget(slot);
 }
-loop_harness! { fn c09_l1(17) { probe_one_take(Short, false); } }
-loop_harness! { fn c09_l1h(17) { unsafe { HEAP_CACHE = true; } probe_one_take(Short, false); } }
-loop_harness! { fn c09_l2h(17) { unsafe { HEAP_CACHE = true; } probe_one_take(Short, true); } }
-loop_harness! { fn c09_l2(17) { probe_one_take(Short, true); } }
